@@ -5,6 +5,7 @@ package verifsim
 
 import (
 	"fmt"
+	"math"
 	"sort"
 	"time"
 
@@ -62,8 +63,9 @@ type liveSeries struct {
 }
 
 func (c09) Run(e *Env) {
-	e.ProbeDecl("expired", "reported-idle", "boundary-exact", "revived-after-expiry", "negative-expiry-single-flush", "zero-expiry-long-idle", "data-at-flush-instant", "histogram-timer-series", "small-value-pool")
-	expChoices := []time.Duration{-time.Second, 0, 300 * time.Millisecond, 400 * time.Millisecond, 600 * time.Millisecond, time.Second, 1500 * time.Millisecond, 5 * time.Second}
+	e.ProbeDecl("expired", "reported-idle", "boundary-exact", "revived-after-expiry", "negative-expiry-single-flush", "zero-expiry-long-idle", "data-at-flush-instant", "histogram-timer-series", "small-value-pool", "huge-expiry-long-idle")
+	// incl. intervals that will never elapse in a run: a year, and the largest a configuration can express
+	expChoices := []time.Duration{-time.Second, 0, 300 * time.Millisecond, 400 * time.Millisecond, 600 * time.Millisecond, time.Second, 1500 * time.Millisecond, 5 * time.Second, -time.Nanosecond, 8760 * time.Hour, 2562047 * time.Hour, math.MaxInt64}
 	cfg := W1Config{
 		Readers: 1, Parsers: e.Range(1, 2), Workers: e.Range(1, 3), Queue: []int{0, 2, 8}[e.Draw(3)], BatchSize: 1,
 		Flush:      []time.Duration{200 * time.Millisecond, 300 * time.Millisecond, 500 * time.Millisecond, time.Second}[e.Draw(4)],
@@ -168,6 +170,9 @@ func (c09) Run(e *Env) {
 			if iv == 0 && age > 3*time.Second {
 				e.Probe("zero-expiry-long-idle")
 			}
+			if iv > time.Hour && age > 3*time.Second {
+				e.Probe("huge-expiry-long-idle")
+			}
 			ls.acc = &Agg{Kind: ls.kind, Members: map[string]struct{}{}}
 			ls.hasData = false
 		}
@@ -242,7 +247,7 @@ func (c09) Run(e *Env) {
 		e.Check()
 	}
 	for _, k := range sortedLive(live) {
-		if iv := expOf[live[k].kind]; iv != 0 {
+		if iv := expOf[live[k].kind]; iv != 0 && iv < time.Hour {
 			e.Failf("C09/model-not-drained", "harness bug: %s still live at the end", k)
 		}
 	}
